@@ -138,7 +138,65 @@ static void aggr_scenario(int style, int stop_after) {
     }
 }
 
+// aggregator whose sources suspend again between their values: with a synchronous consumer the aggregate completes
+// several steps in a row asynchronously (on the resolver's thread)
+static cocls::generator<int> asrc2(cocls::future<int> &g1, cocls::future<int> &g2, int idx) {
+    co_await g1;
+    co_yield idx * 100 + 1;
+    co_await g2;
+    co_yield idx * 100 + 2;
+}
+static void aggr_twostep_scenario(int style, int nsrc) {
+    int64_t *s = vrt_scratch();
+    {
+        cocls::future<int> gate[4];
+        cocls::promise<int> gp[4] = {gate[0].get_promise(), gate[1].get_promise(), gate[2].get_promise(), gate[3].get_promise()};
+        std::vector<cocls::generator<int>> list;
+        for (int i = 0; i < nsrc; i++) list.push_back(asrc2(gate[2 * i], gate[2 * i + 1], i));
+        auto agg = std::make_unique<cocls::generator<int>>(cocls::generator_aggregator(std::move(list)));
+        vstd::thread rt[2];
+        for (int i = 0; i < nsrc; i++)
+            rt[i] = vstd::thread([&, i] {
+                vrt_label(i ? "resolver1" : "resolver0");
+                gp[2 * i](1);
+                gp[2 * i + 1](1);
+            });
+        for (int i = nsrc; i < 2; i++) {
+            gp[2 * i](1);  // unused gates
+            gp[2 * i + 1](1);
+        }
+        vrt_label("consumer");
+        for (;;) {
+            if (style == ST_NEXT) {
+                bool more = agg->next();
+                if (!more) break;
+                got(agg->value());
+            } else {
+                cocls::future<int> f = (*agg)();
+                bool hv = f.has_value();
+                if (!hv) break;
+                got(*f);
+            }
+        }
+        s[9] = 1;
+        agg.reset();
+        vrt_label("main");
+        for (int i = 0; i < nsrc; i++) rt[i].join();
+        int last[2] = {0, 0}, cnt = 0;
+        for (int k = 0; k < s[0] && k < 8; k++) {
+            int v = (int)s[1 + k], src = v / 100, j = v % 100;
+            VRT_CHECK(src >= 0 && src < nsrc && j == last[src] + 1, "aggr/per-source-order", "value %d out of order for source %d (previous %d)", v, src, last[src]);
+            last[src] = j;
+            cnt++;
+        }
+        VRT_CHECK(cnt == 2 * nsrc && s[0] == cnt, "aggr/value-lost", "%d of %d values delivered (%ld accesses returned a value)", cnt, 2 * nsrc, (long)s[0]);
+        vrt_outcome("n=%d first=%ld", cnt, (long)s[1]);
+    }
+}
+
 VRT_REGISTER(reg_gen) {
+    for (int st = 0; st < 2; st++)
+        for (int n = 1; n <= 2; n++) vrt::add(std::string("aggr_twostep_") + st_names[st] + "_src" + std::to_string(n), [=] { aggr_twostep_scenario(st, n); });
     for (int st = 0; st < NST; st++)
         for (int th = 0; th < 2; th++) vrt::add(std::string("gen_") + st_names[st] + (th ? "_throw" : ""), [=] { gen_scenario(st, th != 0); });
     for (int st = 0; st < 2; st++)
